@@ -213,6 +213,10 @@ func genCase(rt *rapid.T) *caseT {
 	}
 	if c.plan.IsMap() {
 		c.plan.ExprValues = rapid.IntRange(0, 3).Draw(rt, "exprvalues") == 0
+		// a nil map inside the slice (not at its end): an all-NULL row that takes a key of its own
+		if strings.HasPrefix(c.plan.Path, "maps") && c.m.AutoKey() != nil && c.fill == sg.KeyAuto && rapid.IntRange(0, 2).Draw(rt, "nilmap") == 0 {
+			c.plan.NilMapAt = rapid.IntRange(1, n).Draw(rt, "nilmap.at")
+		}
 		// a slice of maps is split by Config.CreateBatchSize as well
 		if strings.HasPrefix(c.plan.Path, "maps") && rapid.IntRange(0, 4).Draw(rt, "maps.batchsize") == 0 {
 			c.cfg.CreateBatchSize = rapid.IntRange(1, 4).Draw(rt, "cfg.batch.maps")
@@ -345,6 +349,9 @@ func (c *caseT) classes() []string {
 	}
 	if c.plan.ExprValues {
 		set["create:map-values-as-clause.Expr"] = true
+	}
+	if c.plan.NilMapAt > 0 {
+		set["create:nil-map-inside-the-slice"] = true
 	}
 	for _, l := range c.m.Shadowed {
 		if l.Spec.Ignored {
